@@ -162,6 +162,7 @@ def run(H, tier, rng):
             check_cache(H, name, pts, grow + grow[::-1], c)
 
 
-Harness("C15", "performance curves with 3..12 points x all breakpoint subsets containing both ends (sampled to 40 per curve in quick) x 5 metrics "
-        "against the definition in exact rational arithmetic; query sequences (random, grow-then-shrink) sharing one cache compared bit-for-bit "
-        "with fresh/no cache; global RMSE vs linear interpolation; MIP vs the median of RMSE increases", "n <= 12").main(run)
+if __name__ == "__main__":
+    Harness("C15", "performance curves with 3..12 points x all breakpoint subsets containing both ends (sampled to 40 per curve in quick) x 5 metrics "
+            "against the definition in exact rational arithmetic; query sequences (random, grow-then-shrink) sharing one cache compared bit-for-bit "
+            "with fresh/no cache; global RMSE vs linear interpolation; MIP vs the median of RMSE increases", "n <= 12").main(run)
